@@ -13,7 +13,7 @@ RULE = (
     "exhaustive: every sequence of bounded length over {queue for multicast / for a peer / with the ids of the previous entry, burst of 17, announcer stop, start} x timing prefixes relative to the collector timer; random: cases = sequences of queue_send requests with uniquely tagged entries (offer, stop-offer, subscribe-ack, nack) for "
     "the multicast group and up to 3 unicast peers, bursts of up to 300 entries, steps timed by delays or relative to the "
     "pending collector timers (-4RES, -RES/4, +RES/4, +4RES, halfway) or inside one iteration; collection timeout from "
-    "{0, 0.005, 0.05}; optionally two running instances whose own offers share the queues and an announcer.stop()/start() "
+    "{0, 0.005, 0.05}; reboot notifications for the unicast peers in between; optionally two running instances whose own offers share the queues and an announcer.stop()/start() "
     "in the middle; all queue_send calls (the library's own included) are seen through a record-and-forward wrapper and "
     "all datagrams are decoded independently. non-trivial = >= 2 destinations with open collectors, or a request within "
     "4 RES of a window closing, or a burst > 15; distinct = distinct case JSON"
@@ -35,8 +35,10 @@ when_st = st.one_of(
 
 @st.composite
 def _step(draw):
-    op = draw(st.sampled_from(["q"] * 8 + ["burst", "stop", "start"]))
+    op = draw(st.sampled_from(["q"] * 8 + ["burst", "stop", "start", "reboot"]))
     s = {"op": op, "when": draw(when_st)}
+    if op == "reboot":
+        s["d"] = draw(st.integers(1, 4))   # the announcer is told that this unicast peer rebooted (what the protocol object does on reboot evidence)
     if op in ("q", "burst"):
         s["d"] = draw(st.integers(0, 4))
         s["kind"] = draw(st.sampled_from(["offer", "stop", "ack", "nack"]))
@@ -151,6 +153,10 @@ def run_case(case):
                     feats["burst"] = True
                 for _ in range(nn):
                     ann.queue_send(entry(s.get("kind", "offer")), remote=DESTS[s.get("d", 0) % len(DESTS)])
+            elif op == "reboot":
+                d_ = DESTS[s.get("d", 1) % len(DESTS)]
+                if d_ is not None:
+                    ann.reboot_detected(d_)
             elif op == "start":
                 if not started[0]:
                     started[0] = True
